@@ -260,6 +260,10 @@ class Inliner:
                     return ('int', int((a[2] == b[2]) != neg), 'bool')
                 if a[0] == 'int' and b[0] == 'int':
                     return ('int', int((a[1] == b[1]) != neg), 'bool')
+        if callee.startswith('core::option::Option::<T>::') and any(isinstance(v, tuple) and v and v[0] == 'closure' for v in vals):
+            r = self.option_adaptor(callee, vals)
+            if r is not None:
+                return r
         if callee.startswith('core::num::<impl ') and '>::' in callee:
             name = callee.rsplit('::', 1)[1]
             ints = [_int(v) for v in vals]
@@ -279,6 +283,46 @@ class Inliner:
                     bits = {'u8': 8, 'u16': 16, 'u32': 32}.get(ty, 64)
                     tz = bits if n == 0 else (n & -n).bit_length() - 1
                     return ('int', tz, 'u32')
+        return None
+
+    # ------------------------------------------------------------------ closures
+    def apply_closure(self, clo, args, depth=0):
+        """the value of calling closure expression ('closure', key, captures) on argument values, or None.
+        Parameter 1 of a closure body is the closure itself (its captures are its fields); the call arguments follow."""
+        if not (isinstance(clo, tuple) and clo and clo[0] == 'closure') or depth > 3:
+            return None
+        s = self.an.summary(clo[1])
+        if s is None or s.cfg.loops() or any(not st.get('local') for st in s.stores):
+            return None
+        r = self.subst(s.ret, (clo,) + tuple(args))
+        if any(isinstance(x, tuple) and x and x[0] == 'unk' for x in walk(r)):
+            return None
+        return self.fold(r)
+
+    def option_adaptor(self, callee, vals):
+        """Option::map_or / map / and_then / map_or_else / is_some_and / unwrap_or with a closure, as a decision on the tag"""
+        if not callee.startswith('core::option::Option::<T>::') or not vals:
+            return None
+        name = callee.rsplit('::', 1)[1]
+        opt = vals[0]
+        some = mk_field(mk_variant(opt, 'Some'), '0', self.an)
+        none_v = ('agg', 'core::option::Option', 'None', ())
+        wrap = lambda v: ('agg', 'core::option::Option', 'Some', (('0', v),))
+        tag = ('discr', opt)
+        if name == 'map_or' and len(vals) == 3:
+            v = self.apply_closure(vals[2], (some,))
+            return None if v is None else ('ite', tag, ((0, vals[1]), (1, v)))
+        if name == 'map' and len(vals) == 2:
+            v = self.apply_closure(vals[1], (some,))
+            return None if v is None else ('ite', tag, ((0, none_v), (1, wrap(v))))
+        if name == 'and_then' and len(vals) == 2:
+            v = self.apply_closure(vals[1], (some,))
+            return None if v is None else ('ite', tag, ((0, none_v), (1, v)))
+        if name == 'is_some_and' and len(vals) == 2:
+            v = self.apply_closure(vals[1], (some,))
+            return None if v is None else ('ite', tag, ((0, ('int', 0, 'bool')), (1, v)))
+        if name == 'unwrap_or' and len(vals) == 2:
+            return ('ite', tag, ((0, vals[1]), (1, some)))
         return None
 
     def const_value(self, e):
